@@ -5,6 +5,7 @@
   The theorems hold for EVERY insertion history and every capacity ≥ 0.
 -/
 import MocProps.CacheLemmas
+import MocModel.Spec.Cache
 
 set_option linter.unusedSimpArgs false
 
@@ -363,5 +364,41 @@ def ev (id pk : String) (t k : Int) (tags : List (List String)) : Event :=
 
 example : (run { cap := 2 } [ev "1" "a" 5 1 [], ev "2" "a" 6 0 [], ev "3" "a" 7 0 [], ev "4" "b" 1 20001 [], ev "5" "b" 9 30000 [["d", "x"]]]).evs.map (·.id)
     = ["5", "3"] := by decide
+
+
+/-! ### the classification of kinds is the one of the statement -/
+
+/-- **C04/C05/C06, kind classes.**  `Event.EventType` (regenerated) classifies every kind as the statement does:
+    replaceable = 0, 3, 10000–19999; ephemeral = 20000–29999; addressable = 30000–39999; everything else regular. -/
+theorem eventType_spec (k : Int) :
+    eventType k =
+      if k = 0 ∨ k = 3 ∨ (10000 ≤ k ∧ k < 20000) then .replaceable
+      else if 20000 ≤ k ∧ k < 30000 then .ephemeral
+      else if 30000 ≤ k ∧ k < 40000 then .addressable
+      else .regular := by
+  simp only [eventType, Gen.isReplaceableKind, Gen.isEphemeralKind, Gen.isAddressableKind, Bool.or_eq_true, Bool.and_eq_true,
+    beq_iff_eq, decide_eq_true_eq, or_assoc]
+
+def toClass : EventType → CacheSpec.Class
+  | .regular => .regular
+  | .replaceable => .replaceable
+  | .ephemeral => .ephemeral
+  | .addressable => .addressable
+
+/-- the same, against the class function the runtime monitors of C03–C05 use -/
+theorem eventType_eq_classOf (k : Int) : toClass (eventType k) = CacheSpec.classOf k := by
+  rw [eventType_spec]
+  simp only [CacheSpec.classOf, Bool.or_eq_true, Bool.and_eq_true, beq_iff_eq, decide_eq_true_eq, or_assoc]
+  by_cases h1 : k = 0 ∨ k = 3 ∨ (10000 ≤ k ∧ k < 20000)
+  · simp [h1, toClass]
+  · by_cases h2 : 20000 ≤ k ∧ k < 30000
+    · simp [h1, h2, toClass]
+    · by_cases h3 : 30000 ≤ k ∧ k < 40000
+      · simp [h1, h2, h3, toClass]
+      · simp [h1, h2, h3, toClass]
+
+example : eventType 39999 = .addressable ∧ eventType 40000 = .regular ∧ eventType 9999 = .regular ∧ eventType 10000 = .replaceable ∧
+    eventType 19999 = .replaceable ∧ eventType 20000 = .ephemeral ∧ eventType 29999 = .ephemeral ∧ eventType 30000 = .addressable ∧
+    eventType 0 = .replaceable ∧ eventType 3 = .replaceable ∧ eventType 1 = .regular ∧ eventType 2 = .regular ∧ eventType 4 = .regular := by decide
 
 end Moc.C04
